@@ -92,3 +92,33 @@ Proof.
   rewrite authn_destination_locs, attrquery_destination_locs. unfold destination_ok. cbn [bmem]. rewrite !orb_false_r, orb_diag.
   split; (rewrite orb_true_iff, beq_eq; unfold is_empty; destruct dest; split; intros [A|A]; auto; try discriminate; right; exact A).
 Qed.
+
+(** * the served document against the router model
+    With the oracles of the metadata builders instantiated by the router model's values (Idp/Router.v: the Absolute(issuer)
+    URLs of the configured endpoints and the entity ID, themselves interpreted from the source expressions), the five service
+    locations of the document are, in document order, the model's advertised list, and its entityID is the model's entity ID --
+    for every configuration and issuer. *)
+Definition doc_locations (d : dval) : list (option dval) :=
+  [dget d [PField "IDPSSODescriptor"; PField "SingleSignOnService"; PIndex 0; PField "Location"];
+   dget d [PField "IDPSSODescriptor"; PField "SingleSignOnService"; PIndex 1; PField "Location"];
+   dget d [PField "IDPSSODescriptor"; PField "SingleLogoutService"; PIndex 0; PField "Location"];
+   dget d [PField "IDPSSODescriptor"; PField "SingleLogoutService"; PIndex 1; PField "Location"];
+   dget d [PField "AttributeAuthorityDescriptor"; PField "AttributeService"; PIndex 0; PField "Location"]].
+Lemma md_sat_mono extra conf idp fresh (P Q : dval -> Prop) : md_sat extra conf idp fresh P -> (forall d, P d -> Q d) -> md_sat extra conf idp fresh Q.
+Proof. unfold md_sat. intros H HQ. destruct (md_value extra conf idp fresh) as [d|]; [apply HQ, H|exact H]. Qed.
+
+Theorem document_is_router_model cfg issuer want enc cache errurl cert valid id1 id2 id3 (org contact : bool) :
+  let ic := idp_conf want enc cache errurl in
+  let conf := DObj "provider.Config" [("IDPConfig", ic);
+                ("Organisation", if org then DObj "provider.Organisation" [("Name", DStr (b "n")); ("DisplayName", DStr (b "d")); ("URL", DStr (b "u"))] else DNil);
+                ("ContactPerson", if contact then DObj "provider.ContactPerson" [("ContactType", DStr (b "technical")); ("Company", DStr (b "c")); ("GivenName", DStr (b "g"));
+                                                    ("SurName", DStr (b "s")); ("EmailAddress", DStr (b "e")); ("TelephoneNumber", DStr (b "t"))] else DNil)] in
+  md_sat (md_oracles (entity_id cfg issuer) issuer cert (Endpoint_Absolute (c_sso cfg) issuer) (Endpoint_Absolute (c_slo cfg) issuer) (Endpoint_Absolute (c_attr cfg) issuer) valid)
+    conf (DObj "provider.IdentityProvider" [("conf", ic); ("TimeFormat", DStr (b "f"))]) [id1; id2; id3]
+    (fun d => at_ d ["EntityID"] = Some (DStr (entity_id cfg issuer)) /\
+              doc_locations d = map (fun p => Some (DStr (snd p))) (advertised cfg issuer)).
+Proof.
+  intros ic conf. eapply md_sat_mono; [exact (metadata_fields want enc cache errurl _ issuer cert _ _ _ valid id1 id2 id3 org contact)|].
+  intros d (H1 & _ & _ & _ & _ & _ & _ & _ & A & B & C & D & E & _). split; [exact H1|].
+  unfold doc_locations, advertised. cbn [map snd]. now rewrite A, B, C, D, E.
+Qed.
